@@ -67,7 +67,8 @@ RULE = ("Hypothesis-generated batch reactions of a generated solution (phreeqc.d
         "fixed pressure or fixed volume, total pressure log-uniform over the decades 0.01-1000 atm, initial partial pressures as integer-"
         "weighted shares (some zero, under-filled, or an empty phase over an acid carbonate solution) or -equilibrate, volume 0.01-20 L "
         "(<= ~20 mol gas), optional minerals / REACTION steps / REACTION_TEMPERATURE sequences of 1-3 temperatures, or (b) 1-3 gases as "
-        "EQUILIBRIUM_PHASES with target log10 P in -2..3, or (c) 2-4 NEW gas phases with different user numbers (own composition, pressure, "
+        "EQUILIBRIUM_PHASES with target log10 P in -2..3 (half of them 1..3), optionally at 2-3 distinct REACTION_TEMPERATURE steps and / or "
+        "reacted in 1-3 consecutive simulations with further solutions of other temperatures on the same instance, or (c) 2-4 NEW gas phases with different user numbers (own composition, pressure, "
         "temperature, volume, fixed P / fixed V, ideal or PR per phase, optional -equilibrate with one of two solutions, blocks in "
         "shuffled order) defined in ONE simulation and then each reacted in its own simulation with the solution it names, every "
         "phase judged by the single-phase clauses incl. the EOS-based initial moles (per-entity data must not leak between "
@@ -263,8 +264,21 @@ def case_strategy(draw):
     if kind == "equi":
         pool = [g for g in pool if g != "H2O(g)"]
         names = draw(st.lists(st.sampled_from(pool), min_size=1, max_size=3, unique=True))
-        parts["equi"] = [[n, float("%.4g" % math.log10(draw(pressure(-2, 2)))), draw(cg.logu(1e-4, 10.0, 3))] for n in names]
+        parts["equi"] = [[n, float("%.4g" % math.log10(draw(st.one_of(pressure(-2, 2), pressure(1, 2))))), draw(cg.logu(1e-4, 10.0, 3))]
+                         for n in names]
         parts["minerals"] = draw(st.sampled_from([[], [], ["Calcite"]]))
+        # the same gas-bearing assemblage at a sequence of temperatures on one instance: REACTION_TEMPERATURE steps with distinct
+        # values, and / or further solutions of other temperatures reacted with it in consecutive simulations
+        parts["rtemp"] = None
+        if draw(st.booleans()):
+            parts["rtemp"] = draw(st.lists(temperature(), min_size=2, max_size=3, unique=True))
+        parts["sols"], parts["uses"] = [sol], []
+        if draw(st.booleans()):
+            for num in range(2, 2 + draw(st.integers(1, 2))):
+                s2 = draw(cg.simple_solution(num, elements=SOL_ELEMENTS, max_el=3, temp=False, charge=False))
+                s2["temp"] = draw(temperature())
+                parts["sols"].append(s2)
+            parts["uses"] = draw(st.lists(st.integers(1, len(parts["sols"])), min_size=1, max_size=3))
         return finish(parts)
     # ---- gas phase
     if custom_mode == "ideal":
@@ -427,7 +441,7 @@ def finish(parts):
         L.append("GAS_BINARY_PARAMETERS")
         for a, b, k in parts["kij"]:
             L.append(" %s %s %s" % (a, b, cg.fmt(k)))
-    if parts["kind"] == "multi":
+    if parts["kind"] == "multi" or (parts["kind"] == "equi" and parts.get("sols")):
         for sol in parts["sols"]:
             L.append(cg.render_solution(sol))
     else:
@@ -443,6 +457,8 @@ def finish(parts):
             L.append(" %s %s %s" % (n, cg.fmt(si), cg.fmt(m)))
         for m in parts["minerals"]:
             L.append(" %s 0 0.05" % m)
+        if parts.get("rtemp"):
+            L.append("REACTION_TEMPERATURE 1\n %s" % " ".join(cg.fmt(t) for t in parts["rtemp"]))
     else:
         gp = parts["gp"]
         L += render_gas_phase(gp)
@@ -470,6 +486,9 @@ def finish(parts):
         for k in parts["order"]:
             gp = parts["phases"][k]
             L.append("USE solution %d\nUSE gas_phase %d\nEND" % (gp["use"], gp["number"]))
+    if parts["kind"] == "equi":
+        for u in parts.get("uses") or []:
+            L.append("USE solution %d\nUSE equilibrium_phases 1\nEND" % u)
     parts["input"] = "\n".join(L) + "\n"
     return parts
 
@@ -539,6 +558,8 @@ def check_case(case, ctx):
     react = [r for r in rows if r["state"] == "react"]
     if case["kind"] == "multi":
         return check_multi(case, isoln, react, names, gases_db, kij, ctx)
+    if case["kind"] == "equi":
+        return check_equi_rows(case, isoln, react, names, gases_db, kij, pr, ctx)
     if len(isoln) != 1 or not react:
         raise Violation("rows", "expected one i_soln row and >=1 react rows, got states %r" % [r["state"] for r in rows])
     classes = ["db=" + case["db"], "eos=" + ("PR" if pr else "ideal"), "kind=" + case["kind"], "ngas=%d" % len(names)]
@@ -597,13 +618,40 @@ def need_finite(r, skip=()):
             raise Violation("finite", "non-finite value %r in column %s of a row whose gas relations are asserted" % (v, k))
 
 
-def check_equi(case, r, names, G, kij, pr, info, ctx):
+def check_equi_rows(case, isoln, react, names, gases_db, kij, pr, ctx):
+    """rows of an EQUILIBRIUM_PHASES-gas case: the defining simulation (solution 1, one row per REACTION_TEMPERATURE value or one
+    row at the solution's temperature), then one row per 'USE solution k / USE equilibrium_phases 1' simulation at solution k's
+    temperature (the reaction temperatures are not used there)"""
+    sols = case.get("sols") or [case["sol"]]
+    rt = case.get("rtemp")
+    if isinstance(rt, (int, float)):
+        rt = [rt]
+    want = list(rt) if rt else [sols[0]["temp"]]
+    want += [sols[u - 1]["temp"] for u in case.get("uses") or []]
+    if len(isoln) != len(sols) or len(react) != len(want):
+        raise Violation("rows", "expected %d i_soln and %d react rows, got %d / %d" % (len(sols), len(want), len(isoln), len(react)))
+    classes = ["db=" + case["db"], "eos=" + ("PR" if pr else "ideal"), "kind=equi", "ngas=%d" % len(names),
+               "equi_temperatures=%d" % min(len(set(want)), 4)]
+    if rt and len(rt) > 1:
+        classes.append("temperature_sequence")
+    if case.get("uses"):
+        classes.append("equi_consecutive_solutions")
+    info = {"nt": False, "classes": classes}
+    G = [gases_db[n] for n in names]
+    for r, tc in zip(react, want):
+        check_equi(case, r, names, G, kij, pr, info, ctx, tc)
+    return {"nontrivial": info["nt"], "classes": sorted(set(info["classes"]))}
+
+
+def check_equi(case, r, names, G, kij, pr, info, ctx, tc=None):
     """gases as EQUILIBRIUM_PHASES: each is a pure gas at P = 10^target (documented: "the target saturation index for a gas
     is log10(P)", SI is based on the fugacity) => PR_P = P, PR_PHI = phi_EOS(P, T), SI = log10(phi P) while the gas is present"""
     need_finite(r)
     Tk = r["tk"]
-    if rel(Tk, case["sol"]["temp"] + 273.15) > 1e-12:
-        raise Violation("temperature", "TK %r but the solution temperature is %r C" % (Tk, case["sol"]["temp"]))
+    tc = case["sol"]["temp"] if tc is None else tc
+    if rel(Tk, tc + 273.15) > 1e-12:
+        raise Violation("temperature", "TK %r but the temperature of this calculation is %r C" % (Tk, tc))
+    info["classes"].append("T=%s" % ("0-25" if tc <= 25 else "25-60" if tc <= 60 else "60-100" if tc <= 100 else "100-150" if tc <= 150 else "150-200"))
     present = 0
     for i, n in enumerate(names):
         target = case["equi"][i][1]
